@@ -1,1 +1,283 @@
-/-! C04 - property theorems (declared with their full name `C04.<name>`; helper lemmas go to Lemmas/) -/
+import CohdlVerif.Lemmas.C04Lemmas
+
+/-!
+  C04 - property theorems: reset returns every sequential context to its power-up behaviour from any state.
+
+  The model (Model/C04.lean) mirrors `std._context._sequential_impl` (three wrappers, either polarity,
+  `step_cond`, `on_reset`) and `Sequential._pushed_resettable_signals` (which objects `reset_context()` assigns).
+  The body of the context and the on_reset actions are arbitrary functions (state before the activation, inputs)
+  -> list of writes; every theorem below holds for EVERY body (an embedded coroutine is the body `smBody`),
+  EVERY on_reset action and EVERY state - not only the reachable ones.
+  Only property theorems live here (full name `C04.*`); helper lemmas are in Lemmas/C04Lemmas.lean.
+-/
+open CohdlVerif.C04
+
+namespace CohdlVerif.C04
+
+variable {ι : Type}
+
+/-- Hypothesis of `C04.after_reset_eq_powerup`: `F` is a set of objects that carries the whole state of the
+    context - every object in it is assigned its default by reset and not re-assigned by an on_reset action, and
+    the body reads nothing outside `F` (besides its inputs). -/
+structure AllStateResettable (p : Ctx ι) (F : Nat → Bool) : Prop where
+  reset : ∀ r, F r = true → r ∈ resettable p
+  onReset_off : ∀ s d, ∀ w ∈ p.onReset s d, F w.1 = false
+  body_reads : ∀ s s' d, (∀ r, F r = true → s r = s' r) → p.body s d = p.body s' d
+
+/-- a 2-bit counter `c` (signal, default 0) and a variable `v` (default 1) that follows it; both resettable -/
+def exCounterObjs : List Obj := [⟨false, some 0, false, true, false⟩, ⟨true, some 1, false, true, false⟩]
+
+def exCounter (kind : RKind) (low : Bool) : Ctx Unit :=
+  { objs := exCounterObjs,
+    cfg := ⟨kind, low⟩,
+    body := fun s _ => [(0, (s 0).map (fun x => (x + 1) % 4)), (1, s 0)],
+    onReset := fun _ _ => [] }
+
+/-- the same counter marked `noreset` (and a default-less variant behaves the same way) -/
+def exNoreset : Ctx Unit :=
+  { objs := [⟨false, some 0, true, true, false⟩],
+    cfg := ⟨.sync, false⟩,
+    body := fun s _ => [(0, (s 0).map (fun x => (x + 1) % 4))],
+    onReset := fun _ _ => [] }
+
+/-- a context with an on_reset action (`extra <= 1`), a noreset object and an object without default -/
+def exMixed : Ctx Unit :=
+  { objs := [⟨false, some 3, false, true, false⟩,      -- 0: resettable
+             ⟨false, some 1, true, true, false⟩,       -- 1: noreset
+             ⟨true, none, false, true, false⟩,         -- 2: variable without default
+             ⟨false, some 0, false, true, false⟩,      -- 3: `extra`, assigned by the on_reset action
+             ⟨false, some 2, false, false, false⟩],    -- 4: only read by this context
+    cfg := ⟨.async, true⟩,
+    body := fun s _ => [(0, s 1), (1, s 4), (2, s 0), (3, some 0)],
+    onReset := fun _ _ => [(3, some 1)] }
+
+end CohdlVerif.C04
+
+/-- Whenever the wrapper takes the reset branch (`resetTaken`: at the active clock edge for synchronous resets,
+    at ANY activation for asynchronous ones, reset level compared with the configured polarity), every object the
+    code treats as resettable - written or pushed in the context, has a default, not `noreset` - holds its
+    default afterwards, unless a registered on_reset action assigns it (then see `C04.reset_runs_on_reset`).
+    For every body, every state. -/
+theorem C04.reset_sets_defaults {ι : Type} (p : Ctx ι) (s : State) (e : Ev ι)
+    (hact : resetTaken p.cfg e = true) (r : Nat) (hr : r ∈ resettable p)
+    (hon : ∀ w ∈ p.onReset s e.data, w.1 ≠ r) :
+    stepR p s e r = defaultOf p r := by
+  rw [stepR_reset p s e hact]
+  exact resetBranch_default p s e.data r hr hon
+
+/-- Objects without a default, marked `noreset`, or not driven by the context keep their value while reset is
+    active (unless a registered on_reset action assigns them). -/
+theorem C04.reset_keeps_others {ι : Type} (p : Ctx ι) (s : State) (e : Ev ι)
+    (hact : resetTaken p.cfg e = true) (r : Nat) (hr : r ∉ resettable p)
+    (hon : ∀ w ∈ p.onReset s e.data, w.1 ≠ r) :
+    stepR p s e r = s r := by
+  rw [stepR_reset p s e hact]
+  exact resetBranch_keep p s e.data r hr hon
+
+/-- characterisation of the mirrored `resettable` set in the words of the property statement -/
+theorem C04.resettable_iff {ι : Type} (p : Ctx ι) (r : Nat) :
+    r ∈ resettable p ↔ ∃ o, p.objs[r]? = some o ∧ (o.written = true ∨ o.pushed = true) ∧
+      o.default.isSome = true ∧ o.noreset = false := by
+  unfold resettable
+  rw [mem_resettableL]
+  unfold isResettable objAt
+  cases h : p.objs[r]? with
+  | none => simp
+  | some o => simp [Obj.resettable, Bool.and_eq_true, Bool.or_eq_true, and_assoc]
+
+/-- Registered on_reset actions run: the value an on_reset action assigns (last assignment wins) is what the
+    object holds after the reset activation, whatever the state was. -/
+theorem C04.reset_runs_on_reset {ι : Type} (p : Ctx ι) (s : State) (e : Ev ι)
+    (hact : resetTaken p.cfg e = true) (r : Nat) (v : Val)
+    (h1 : ∀ w ∈ p.onReset s e.data, w.1 = r → w.2 = v) (h2 : ∃ w ∈ p.onReset s e.data, w.1 = r) :
+    stepR p s e r = v := by
+  rw [stepR_reset p s e hact]
+  exact resetBranch_onReset p s e.data r v h1 h2
+
+/-- Nothing else in the context executes while reset is active: the result of the activation is the reset code
+    (default assignments, then the on_reset actions) and does not depend on the body at all. -/
+theorem C04.reset_runs_nothing_else {ι : Type} (p : Ctx ι) (b : State → ι → Writes) (s : State) (e : Ev ι)
+    (hact : resetTaken p.cfg e = true) :
+    stepR p s e = applyWrites s (defaultWrites p ++ p.onReset s e.data) ∧
+    stepR { p with body := b } s e = stepR p s e := by
+  constructor
+  · rw [stepR_reset p s e hact]; rfl
+  · rw [stepR_reset p s e hact, stepR_reset { p with body := b } s e hact]
+    rfl
+
+/-- An embedded coroutine returns to its first state: for every per-state code, every state (any value of the
+    state register, defined or not) the register holds the first state after a reset activation, and the next
+    activation of the body executes the code of the first state.  (The state register is not accessible to user
+    code, so no on_reset action can assign it.) -/
+theorem C04.reset_to_first_state {ι : Type} (p : Ctx ι) (codes : List (State → ι → Writes)) (s : State) (e : Ev ι)
+    (hact : resetTaken (withSM p codes).cfg e = true)
+    (hon : ∀ w ∈ (withSM p codes).onReset s e.data, w.1 ≠ p.objs.length) :
+    stepR (withSM p codes) s e p.objs.length = some 0 ∧
+    ∀ d, (withSM p codes).body (stepR (withSM p codes) s e) d
+        = (codes.getD 0 (fun _ _ => [])) (stepR (withSM p codes) s e) d := by
+  have h := C04.reset_sets_defaults (withSM p codes) s e hact p.objs.length (stateReg_resettable p codes) hon
+  rw [stateReg_default] at h
+  refine ⟨h, fun d => ?_⟩
+  show smBody p.objs.length codes _ d = _
+  simp [smBody, h]
+
+/-- Asynchronous reset acts at any instant: whenever the reset level is the active one the activation is the
+    reset code - whether or not a clock edge occurs, whatever the step condition says. -/
+theorem C04.async_reset_any_instant {ι : Type} (p : Ctx ι) (s : State) (e : Ev ι)
+    (hk : p.cfg.kind = .async) (hlevel : e.rst = !p.cfg.activeLow) :
+    resetTaken p.cfg e = true ∧
+    ∀ edge en, stepR p s { e with edge := edge, en := en } = applyWrites s (defaultWrites p ++ p.onReset s e.data) := by
+  have hact : ∀ edge en, resetTaken p.cfg { e with edge := edge, en := en } = true := by
+    intro edge en
+    simp [resetTaken, hk, active, hlevel]
+  refine ⟨by simpa using hact e.edge e.en, fun edge en => ?_⟩
+  rw [stepR_reset p s _ (hact edge en)]
+  rfl
+
+/-- Synchronous reset acts only at the active clock edge: without the edge nothing changes, at the edge with the
+    reset level active the activation is the reset code, whatever the step condition says. -/
+theorem C04.sync_reset_at_edge_only {ι : Type} (p : Ctx ι) (s : State) (e : Ev ι) (hk : p.cfg.kind = .sync) :
+    (e.edge = false → stepR p s e = s) ∧
+    (e.edge = true → e.rst = !p.cfg.activeLow →
+      stepR p s e = applyWrites s (defaultWrites p ++ p.onReset s e.data)) := by
+  constructor
+  · intro h; simp [stepR, hk, h]
+  · intro h1 h2
+    have hact : resetTaken p.cfg e = true := by simp [resetTaken, hk, active, h1, h2]
+    rw [stepR_reset p s e hact]; rfl
+
+/-- Polarity: with the reset level inactive the reset code does not run - the activation is the (gated) body at a
+    clock edge and nothing otherwise. -/
+theorem C04.inactive_reset_runs_body {ι : Type} (p : Ctx ι) (s : State) (e : Ev ι)
+    (hlevel : e.rst = p.cfg.activeLow) :
+    resetTaken p.cfg e = false ∧ stepR p s e = if e.edge then stepBranch p s e else s := by
+  cases hk : p.cfg.kind <;> simp [resetTaken, stepR, hk, active, hlevel]
+
+/-- two states that agree on the objects of `F` stay in agreement under every activation -/
+theorem C04.agreement_preserved {ι : Type} (p : Ctx ι) (F : Nat → Bool) (h : AllStateResettable p F)
+    (s s' : State) (e : Ev ι) (hs : ∀ r, F r = true → s r = s' r) :
+    ∀ r, F r = true → stepR p s e r = stepR p s' e r := by
+  have hreset : ∀ r, F r = true → resetBranch p s e.data r = resetBranch p s' e.data r := by
+    intro r hr
+    have hoff : ∀ t, ∀ w ∈ p.onReset t e.data, w.1 ≠ r := by
+      intro t w hw e'
+      have := h.onReset_off t e.data w hw
+      rw [e', hr] at this; cases this
+    rw [resetBranch_default p s e.data r (h.reset r hr) (hoff s),
+        resetBranch_default p s' e.data r (h.reset r hr) (hoff s')]
+  have hstep : ∀ r, F r = true → stepBranch p s e r = stepBranch p s' e r := by
+    intro r hr
+    unfold stepBranch
+    by_cases hen : e.en = true
+    · simp only [hen, if_true]
+      rw [h.body_reads s s' e.data hs]
+      exact applyWrites_agree F s s' _ hs r hr
+    · simp [hen, hs r hr]
+  intro r hr
+  unfold stepR
+  cases p.cfg.kind with
+  | none => by_cases he : e.edge = true <;> simp [he, hstep r hr, hs r hr]
+  | sync =>
+    by_cases he : e.edge = true <;> by_cases ha : active p.cfg e.rst = true <;>
+      simp [he, ha, hstep r hr, hreset r hr, hs r hr]
+  | async =>
+    by_cases he : e.edge = true <;> by_cases ha : active p.cfg e.rst = true <;>
+      simp [he, ha, hstep r hr, hreset r hr, hs r hr]
+
+/-- THE PROPERTY.  After a reset activation from ANY state (reachable or not), for ALL later activations (clock
+    edges, further resets, any inputs) the context behaves exactly as it does after power-up: the trace of the
+    objects in `F` equals the power-up trace on the same later inputs - provided `F` carries the whole state of
+    the context (`AllStateResettable`).  Without that hypothesis the statement is false BY DESIGN of `noreset`
+    / default-less objects: see `C04.after_reset_eq_powerup_needs_hypothesis`. -/
+theorem C04.after_reset_eq_powerup {ι : Type} (p : Ctx ι) (F : Nat → Bool) (h : AllStateResettable p F)
+    (s : State) (e : Ev ι) (hact : resetTaken p.cfg e = true) (es : List (Ev ι)) :
+    traceF F p (stepR p s e) es = traceF F p (init p) es := by
+  have h0 : ∀ r, F r = true → stepR p s e r = init p r := by
+    intro r hr
+    have hoff : ∀ w ∈ p.onReset s e.data, w.1 ≠ r := by
+      intro w hw e'
+      have := h.onReset_off s e.data w hw
+      rw [e', hr] at this; cases this
+    rw [C04.reset_sets_defaults p s e hact r (h.reset r hr) hoff]; rfl
+  have gen : ∀ (es : List (Ev ι)) (t t' : State), (∀ r, F r = true → t r = t' r) →
+      traceF F p t es = traceF F p t' es := by
+    intro es
+    induction es with
+    | nil => intro _ _ _; rfl
+    | cons e' es ih =>
+      intro t t' ht
+      have hn := C04.agreement_preserved p F h t t' e' ht
+      simp only [traceF, runR, List.map_cons]
+      rw [restrict_eq_of_agree F _ _ hn]
+      have := ih _ _ hn
+      simp only [traceF] at this
+      rw [this]
+  exact gen es _ _ h0
+
+/-- non-vacuity: the counter context (signal + variable, any wrapper kind and polarity) satisfies the hypothesis
+    with `F` = all of its objects -/
+example (kind : RKind) (low : Bool) : AllStateResettable (exCounter kind low) (fun r => decide (r < 2)) where
+  reset := by
+    intro r hr
+    have hr2 : r < 2 := of_decide_eq_true hr
+    match r, hr2 with
+    | 0, _ => exact (by decide : 0 ∈ resettableL exCounterObjs)
+    | 1, _ => exact (by decide : 1 ∈ resettableL exCounterObjs)
+    | n + 2, h2 => exact absurd h2 (by omega)
+  onReset_off := by intro s d w hw; cases hw
+  body_reads := by
+    intro s s' d hs
+    have h0 := hs 0 (by decide)
+    simp [exCounter, h0]
+
+/-- ... so from the arbitrary (even unreachable: `v` undefined) state `c = 3, v = U` one asynchronous active-low reset
+    activation without any clock edge makes the later trace equal to the power-up trace -/
+example (es : List (Ev Unit)) :
+    traceF (fun r => decide (r < 2)) (exCounter .async true) (stepR (exCounter .async true) (fun r => if r = 0 then some 3 else none) ⟨false, false, false, ()⟩) es
+      = traceF (fun r => decide (r < 2)) (exCounter .async true) (init (exCounter .async true)) es :=
+  C04.after_reset_eq_powerup _ _
+    { reset := by
+        intro r hr
+        have hr2 : r < 2 := of_decide_eq_true hr
+        match r, hr2 with
+        | 0, _ => exact (by decide : 0 ∈ resettableL exCounterObjs)
+        | 1, _ => exact (by decide : 1 ∈ resettableL exCounterObjs)
+        | n + 2, h2 => exact absurd h2 (by omega)
+      onReset_off := by intro s d w hw; cases hw
+      body_reads := by
+        intro s s' d hs
+        have h0 := hs 0 (by decide)
+        simp [exCounter, h0] } _ _ (by decide) es
+
+/-- Without the hypothesis the conclusion FAILS, by design of `noreset` (the same happens for a register without
+    default): the `noreset` counter keeps its value 2 through the reset activation (that is what
+    `C04.reset_keeps_others` demands), so the later trace (3, ...) differs from the power-up trace (1, ...).
+    Every part of `AllStateResettable` except `reset` holds for this context. -/
+theorem C04.after_reset_eq_powerup_needs_hypothesis :
+    ∃ (p : Ctx Unit) (F : Nat → Bool) (s : State) (e : Ev Unit) (es : List (Ev Unit)),
+      resetTaken p.cfg e = true ∧
+      (∀ s d, ∀ w ∈ p.onReset s d, F w.1 = false) ∧
+      (∀ s s' d, (∀ r, F r = true → s r = s' r) → p.body s d = p.body s' d) ∧
+      stepR p s e 0 = s 0 ∧
+      traceF F p (stepR p s e) es ≠ traceF F p (init p) es := by
+  refine ⟨exNoreset, fun r => r == 0, fun _ => some 2, ⟨true, true, true, ()⟩, [⟨true, false, true, ()⟩],
+    by decide, ?_, ?_, by decide, ?_⟩
+  · intro s d w hw; cases hw
+  · intro s s' d hs
+    have h0 := hs 0 (by decide)
+    simp [exNoreset, h0]
+  · intro hEq
+    have := congrArg (fun l => l.map (fun st => st 0)) hEq
+    revert this
+    decide
+
+/-- concrete instance of the per-object theorems on a context with every kind of object, in the unreachable
+    state (5,6,7,8,9): asynchronous active-low reset, no clock edge.  Object 0 takes its default 3, the noreset
+    object 1, the default-less variable 2 and the only-read object 4 keep their values, `extra` (3) holds the value
+    the on_reset action assigns. -/
+example :
+    let s : State := fun r => some (r + 5)
+    let e : Ev Unit := ⟨false, false, true, ()⟩
+    resetTaken exMixed.cfg e = true ∧
+    (List.range 5).map (stepR exMixed s e) = [some 3, some 6, some 7, some 1, some 9] := by
+  decide
